@@ -536,6 +536,27 @@ def foreign_tables_cover():
     return cases
 
 
+FORM_CE = "ce,~/$h/66 6f 72 6d,"
+
+
+def form_pointer_oracle(line, out):
+    """fragment parsing with a form element pointer (`new_for_fragment(.., form_elem: Some(_))`): "if the form element
+    pointer is not null, and there is no template element on the stack of open elements, ignore the token" - no form
+    element may be created by a form start tag unless a template was opened before it"""
+    f = line.split("\t")
+    if f[0] != "tb" or f[1] != "tok" or f[3] == "-" or not f[3].endswith(",1") or out is None:
+        return None
+    toks = f[4].split(";")
+    tmpl = S("template").split("@")[0]
+    ctx_is_template = f[3].startswith("~/%s/%s," % (hx(NS_HTML), hx("template")))
+    if ctx_is_template or any(t.split("@")[0].startswith(tmpl[:len(tmpl) - 4]) for t in toks):
+        return None
+    # the harness creates the context element and the pointed-to form before the parser starts (`…;doc;` = get_document)
+    if FORM_CE in out.partition(";doc;")[2]:
+        return "a form element was created although the fragment parser was given a form element pointer and no template is open"
+    return None
+
+
 def fragment_cover(tier):
     """every context element × a small alphabet of first tokens (token level) and of texts (text level)"""
     cases = []
@@ -543,7 +564,7 @@ def fragment_cover(tier):
              S("head"), S("frameset"), S("svg"), S("math"), S("template"), S("input"), S("select"), S("script"),
              S("title"), S("frame"), E("p"), E("br"), E("html"), E("body"), E("template"), E("frameset"), E("td"),
              E("table"), E("select"), T(" x"), T("\n"), N, C("c"), D(), Z, S("font", [("color", "x")]), S("g"), E("g"),
-             S("mglyph"), S("foo", sc=1)]
+             S("mglyph"), S("foo", sc=1), S("form"), E("form")]
     texts = ["x</title>y", "<p>a<b>c</p>d", "<td>1<td>2", "</script><b>", "a&amp;b<!--c-->", "<tr><td>x", "<option>1<option>2",
              "<![CDATA[x]]>y", "<svg><![CDATA[x]]></svg>", "\nx", "<frame><frameset>", "<col><td>", "</template>z",
              "<input type=hidden><select>", "<mi>x<b>y", "<plaintext>a</plaintext>"]
@@ -553,9 +574,14 @@ def fragment_cover(tier):
             for s in (0, 1):
                 o = opts(s=s)
                 for f in first:
-                    if form and f not in (S("input"), S("select"), S("p"), S("template"), Z):
+                    if form and f not in (S("input"), S("select"), S("p"), S("template"), Z, S("form"), E("form")):
                         continue
                     cases.append((case_tok([f, T("k"), S("input"), Z], o, c), "frag-tok"))
+                    if form and f == S("p"):
+                        # the form element pointer given to the fragment parser: a form start tag is ignored, unless a
+                        # template is open
+                        cases.append((case_tok([S("div"), S("form"), T("k"), S("input"), E("form"), Z], o, c), "frag-form"))
+                        cases.append((case_tok([S("template"), S("form"), T("k"), E("form"), Z], o, c), "frag-form"))
                 if form:
                     continue
                 for t in texts:
